@@ -91,6 +91,14 @@ def _normalise_tests(tree):
 
                 b.test = _Sub().visit(b.test)
                 del stmts[[k for k, s_ in enumerate(stmts) if s_ is a][0]]
+    # `for t in X:` whose first statement is `a, b = t` (t read nowhere else in the loop body) is `for a, b in X:`
+    for n in ast.walk(tree):
+        if isinstance(n, (ast.For, ast.AsyncFor)) and isinstance(n.target, ast.Name) and n.body and isinstance(n.body[0], ast.Assign) and len(n.body[0].targets) == 1 and isinstance(n.body[0].targets[0], (ast.Tuple, ast.List)) and isinstance(n.body[0].value, ast.Name) and n.body[0].value.id == n.target.id:
+            t_ = n.target.id
+            others = sum(1 for st in n.body[1:] + n.orelse for m in ast.walk(st) if isinstance(m, ast.Name) and m.id == t_)
+            if others == 0 and len(n.body) > 1:
+                n.target = n.body[0].targets[0]
+                del n.body[0]
     # `t = <call>` immediately followed by a simple statement that reads t exactly once, every read and every
     # assignment of t in the function being such a pair: the temporary is inlined (`_a = g(x); f(a, _a)` is
     # `f(a, g(x))`).  Whether a call's argument is first given a name is not a property of the program.
